@@ -1,0 +1,81 @@
+//go:build verif
+
+// Hooks used only by the external verification harness (build tag `verif`).
+
+package server
+
+import (
+	"time"
+
+	"github.com/oxia-db/oxia/server/kv"
+)
+
+// VerifSessionGate, when set, is called by session.delete (expiry and CloseSession) after the
+// shadow keys of the session have been listed and before the write that deletes the listed
+// records, the session record and the shadow keys is issued. A harness may block in it to decide
+// what other requests the shard applies between the two steps. No lock is held by the caller.
+var VerifSessionGate func(namespace string, shard int64, sessionId int64, listedShadowKeys []string)
+
+func verifSessionGate(s *session, keys []string) {
+	if g := VerifSessionGate; g != nil {
+		g(s.sm.namespace, s.sm.shardId, int64(s.id), keys)
+	}
+}
+
+// VerifTimer is the part of time.Timer a session uses.
+type VerifTimer interface {
+	C() <-chan time.Time
+	Reset(d time.Duration) bool
+	Stop() bool
+}
+
+// VerifNewSessionTimer, when set, supplies the expiry timer of every session that is started
+// (CreateSession, and Initialize on a new leader). Returning nil selects the real timer.
+var VerifNewSessionTimer func(namespace string, shard int64, sessionId int64, d time.Duration) VerifTimer
+
+type sessionTimer struct {
+	C <-chan time.Time
+	t *time.Timer
+	v VerifTimer
+}
+
+func newSessionTimer(s *session) *sessionTimer {
+	if f := VerifNewSessionTimer; f != nil {
+		if v := f(s.sm.namespace, s.sm.shardId, int64(s.id), s.timeout); v != nil {
+			return &sessionTimer{C: v.C(), v: v}
+		}
+	}
+	t := time.NewTimer(s.timeout)
+	return &sessionTimer{C: t.C, t: t}
+}
+
+func (t *sessionTimer) Reset(d time.Duration) bool {
+	if t.v != nil {
+		return t.v.Reset(d)
+	}
+	return t.t.Reset(d)
+}
+
+func (t *sessionTimer) Stop() bool {
+	if t.v != nil {
+		return t.v.Stop()
+	}
+	return t.t.Stop()
+}
+
+// VerifLeaderDB returns the database of a leader controller (nil once it is closed).
+func VerifLeaderDB(lc LeaderController) kv.DB {
+	l := lc.(*leaderController)
+	l.RLock()
+	defer l.RUnlock()
+	return l.db
+}
+
+// VerifFollowerDB returns the database a follower controller currently applies to (it is
+// replaced when a snapshot is installed; nil while that is in progress or after Close).
+func VerifFollowerDB(fc FollowerController) kv.DB {
+	f := fc.(*followerController)
+	f.Lock()
+	defer f.Unlock()
+	return f.db
+}
